@@ -151,9 +151,15 @@ def cases(tier: str) -> list:
     if tier == "thorough":
         comp_files += [p for p in itertools.permutations(["D1", "D2", "D3", "D4"], 3)]
         svc_files += [p for p in itertools.permutations(["S1", "S2", "S4", "TOP"], 3)]
+    else:
+        # three and four files (what the middle files set must survive): a few orders without --set
+        comp_files += [("D1", "D2", "D3"), ("D3", "D2", "D1"), ("D9", "D4", "D2"), ("D1", "D2", "D4", "D3")]
+        svc_files += [("S1", "S4", "TOP"), ("TOP", "S2", "S4")]
     for files in comp_files:
         setsets: list[tuple] = [()] + [(s,) for s in SETS_COMPONENT]
-        if tier == "thorough" or len(files) <= 1:
+        if tier == "quick" and len(files) >= 3:
+            setsets = [(), (SETS_COMPONENT[1],)]
+        elif tier == "thorough" or len(files) <= 1:
             setsets += list(itertools.permutations(SETS_COMPONENT[:11], 2))
         else:
             setsets += [(SETS_COMPONENT[i], SETS_COMPONENT[(i * 3 + len(files[0])) % 11]) for i in range(11)]
@@ -170,6 +176,8 @@ def cases(tier: str) -> list:
             out.append({"files": list(files), "sets": [list(x) for x in triple], "service": None, "env": None})
     for files in svc_files:
         setsets = [()] + [(s,) for s in SETS_SERVICE]
+        if tier == "quick" and len(files) >= 3:
+            setsets = [()]
         if tier == "thorough":
             setsets += list(itertools.permutations(SETS_SERVICE[:5], 2))
         for ss in setsets:
